@@ -74,8 +74,18 @@ def scan_decimal(text):
     return neg, int((ip + fp) or "0"), e - len(fp)
 
 
+_NUM_CACHE = {}
+
+
 def num_value(text):
     """The binary64 nearest to the decimal literal (ties to even), sign of zero preserved."""
+    x = _NUM_CACHE.get(text)
+    if x is None:
+        x = _NUM_CACHE[text] = _num_value(text)
+    return x
+
+
+def _num_value(text):
     neg, mant, e10 = scan_decimal(text)
     if e10 >= 0:
         x = float(mant * 10 ** e10)          # int -> float is correctly rounded
